@@ -35,6 +35,8 @@ func valueMatches(v *pongo2.Value, want AV) (bool, string) {
 		return v.IsBool() && v.Bool() == (want.N == 1), fmt.Sprintf("%v", v.Interface())
 	case "nil":
 		return v.IsNil(), fmt.Sprintf("%v", v.Interface())
+	case "fix":
+		return v.IsFloat() && v.Float() == float64(want.N)/1000, fmt.Sprintf("%v", v.Interface())
 	case "list":
 		if !v.CanSlice() || v.IsString() || v.Len() != len(want.L) {
 			return false, fmt.Sprintf("%v", v.Interface())
@@ -59,6 +61,10 @@ func showAV(v AV) string {
 		return fmt.Sprint(v.N == 1)
 	case "nil":
 		return "nil"
+	case "fix":
+		return strconv.FormatFloat(float64(v.N)/1000, 'f', -1, 64)
+	case "time":
+		return abstractInstant(v.N).Format("2006-01-02T15:04:05")
 	case "list":
 		var p []string
 		for _, e := range v.L {
@@ -144,7 +150,7 @@ func cmdFilterReplay(args []string) {
 			rep.viol(key+": ApplyFilter returned "+got+", reference "+showAV(v.Out), det)
 		}
 		// route 2: the template syntax (printed form)
-		if v.Out.K == "str" || v.Out.K == "int" || v.Out.K == "bool" || v.Out.K == "error" {
+		if v.Out.K == "str" || v.Out.K == "int" || v.Out.K == "bool" || v.Out.K == "error" || v.Out.K == "fix" {
 			to := render(set, "{% autoescape off %}{{ v|"+v.F+argSrc+" }}{% endautoescape %}", pongo2.Context{"v": in, "a": arg})
 			switch {
 			case to.Panic != "":
